@@ -99,6 +99,20 @@ pub mod vmrun {
         aelys_driver::new_vm_with_config(cfg, Vec::new()).expect("vm")
     }
 
+    pub fn rt_kind(k: &RuntimeErrorKind) -> i64 {
+        match k {
+            RuntimeErrorKind::InvalidAllocationSize { .. } => E_INVALID_SIZE,
+            RuntimeErrorKind::InvalidMemoryHandle => E_INVALID_HANDLE,
+            RuntimeErrorKind::DoubleFree => E_DOUBLE_FREE,
+            RuntimeErrorKind::UseAfterFree => E_USE_AFTER_FREE,
+            RuntimeErrorKind::MemoryOutOfBounds { .. } => E_OOB,
+            RuntimeErrorKind::NegativeMemoryIndex { .. } => E_NEG,
+            RuntimeErrorKind::TypeError { .. } => E_TYPE,
+            RuntimeErrorKind::OutOfMemory { .. } => E_OOM,
+            _ => E_OTHER,
+        }
+    }
+
     /// one REPL input; returns (code, raw bits of the value, detail message of an error)
     pub fn input(vm: &mut VM, src: &str, opt: u32) -> (i64, u64, String) {
         aelys_runtime::verif::sink_install();
@@ -109,20 +123,7 @@ pub mod vmrun {
         match r {
             Ok(Ok(v)) => (OK_VAL, v.raw_bits(), String::new()),
             Ok(Err(AelysError::Compile(e))) => (E_COMPILE, 0, format!("{}", e)),
-            Ok(Err(AelysError::Runtime(e))) => {
-                let c = match &e.kind {
-                    RuntimeErrorKind::InvalidAllocationSize { .. } => E_INVALID_SIZE,
-                    RuntimeErrorKind::InvalidMemoryHandle => E_INVALID_HANDLE,
-                    RuntimeErrorKind::DoubleFree => E_DOUBLE_FREE,
-                    RuntimeErrorKind::UseAfterFree => E_USE_AFTER_FREE,
-                    RuntimeErrorKind::MemoryOutOfBounds { .. } => E_OOB,
-                    RuntimeErrorKind::NegativeMemoryIndex { .. } => E_NEG,
-                    RuntimeErrorKind::TypeError { .. } => E_TYPE,
-                    RuntimeErrorKind::OutOfMemory { .. } => E_OOM,
-                    _ => E_OTHER,
-                };
-                (c, 0, e.kind.message())
-            }
+            Ok(Err(AelysError::Runtime(e))) => (rt_kind(&e.kind), 0, e.kind.message()),
             Err(p) => (PANIC, 0, p),
         }
     }
@@ -131,7 +132,7 @@ pub mod vmrun {
         match a { A::I(n) => format!("{}", n), A::Null => "null".into(), A::Flt => "1.5".into() }
     }
 
-    pub struct VmSurface { pub vm: VM, pub builtin: bool, pub opt: u32 }
+    pub struct VmSurface { pub vm: VM, pub builtin: bool, pub opt: u32, pub direct: bool, pub other: u64 }
     impl VmSurface {
         pub fn new(builtin: bool, opt: u32, max_heap: u64) -> Self {
             let mut vm = new_vm(max_heap);
@@ -143,11 +144,45 @@ pub mod vmrun {
             };
             let (c, _, d) = input(&mut vm, prelude, opt);
             if c != OK_VAL { panic!("prelude failed: {} {}", c, d); }
-            VmSurface { vm, builtin, opt }
+            VmSurface { vm, builtin, opt, direct: false, other: 0 }
+        }
+        /// function-level tie: the native builtins called directly with Values (no compiler involved)
+        pub fn new_direct(max_heap: u64) -> Self {
+            VmSurface { vm: new_vm(max_heap), builtin: true, opt: 0, direct: true, other: 0 }
+        }
+        fn val(&mut self, a: A) -> Value {
+            match a {
+                A::I(n) => Value::int(n as i64),
+                A::Null => Value::null(),
+                // "some other kind": floats, bools, a pointer-tagged word, a nested-fn marker
+                A::Flt => { self.other += 1; match self.other % 5 { 0 => Value::float(1.5), 1 => Value::bool(true), 2 => Value::float(f64::NAN), 3 => Value::bool(false), _ => Value::float(-0.0) } }
+            }
+        }
+        fn exec_direct(&mut self, op: &Op) -> Res {
+            let (a, b) = (self.val(op.a), self.val(op.b));
+            let v = Value::from_raw(op.v);
+            let vm = &mut self.vm;
+            let k = op.k;
+            let r = guarded(std::panic::AssertUnwindSafe(move || match k {
+                ALLOC => aelys_runtime::builtin_alloc(vm, &[a]),
+                FREE => aelys_runtime::builtin_free(vm, &[a]),
+                LOAD => aelys_runtime::builtin_load(vm, &[a, b]),
+                _ => aelys_runtime::builtin_store(vm, &[a, b, v]),
+            }));
+            match r {
+                Err(_) => Res { code: PANIC, val: 0 },
+                Ok(Err(e)) => Res { code: rt_kind(&e.kind), val: 0 },
+                Ok(Ok(v)) => match op.k {
+                    ALLOC => match v.as_int() { Some(h) => Res { code: OK_HANDLE, val: h as i128 }, None => Res { code: E_OTHER, val: v.raw_bits() as i128 } },
+                    LOAD => Res { code: OK_VAL, val: v.raw_bits() as i128 },
+                    _ => if v.is_null() { Res { code: OK_UNIT, val: 0 } } else { Res { code: E_OTHER, val: v.raw_bits() as i128 } },
+                },
+            }
         }
     }
     impl Surface for VmSurface {
         fn exec(&mut self, op: &Op) -> Res {
+            if self.direct { return self.exec_direct(op); }
             let pre = if self.builtin { "bi_" } else if op.via_fn { "ng_" } else { "" };
             let src = match op.k {
                 ALLOC => format!("{}alloc({})", pre, arg_src(op.a)),
@@ -537,7 +572,7 @@ fn main() {
         let n_hist = if fixed.is_some() { 1 } else { hist };
         if surf == "forged" { forged_main(seed, hist, &mut dist); for (k, v) in &dist.0 { println!("#DIST\t{}\t{}", k, v); } return; }
         for hidx in 0..n_hist {
-            let mut rng = Rng::new(seed.wrapping_mul(1_000_003).wrapping_add(hidx).wrapping_add(match surf.as_str() { "api" => 0, "builtin" => 1 << 40, _ => 2 << 40 }));
+            let mut rng = Rng::new(seed.wrapping_mul(1_000_003).wrapping_add(hidx).wrapping_add(match surf.as_str() { "api" => 0, "builtin" => 1 << 40, "natfn" => 6 << 40, _ => 2 << 40 }));
             // lengths 1..maxlen, biased so that short and long histories both occur
             let len = match rng.below(4) { 0 => 1 + rng.below(8), 1 => 1 + rng.below(40), _ => 1 + rng.below(maxlen) } as usize;
             // -O2 and above delete the unused top-level `let bi_alloc = alloc` of the prelude
@@ -546,6 +581,9 @@ fn main() {
                 "api" => { let mut s = Api { h: ManualHeap::new() };
                     let (o, b, f) = run_history("api", &mut s, &mut rng, len, &huge_api, &mut dist, fixed.as_deref());
                     let q = format!("QApi [{}]", o.iter().map(|x| coq_op(x, false)).collect::<Vec<_>>().join("; ")); (o, b, f, q) }
+                "natfn" => { let mut s = vmrun::VmSurface::new_direct(max_heap);
+                    let (o, b, f) = run_history("natfn", &mut s, &mut rng, len, &huge_vm, &mut dist, fixed.as_deref());
+                    let q = format!("QVm SBuiltin {} [{}]", max_heap, o.iter().map(|x| coq_op(x, true)).collect::<Vec<_>>().join("; ")); (o, b, f, q) }
                 "builtin" | "opcode" => { let mut s = vmrun::VmSurface::new(surf == "builtin", opt, max_heap);
                     let (o, b, f) = run_history(&surf, &mut s, &mut rng, len, &huge_vm, &mut dist, fixed.as_deref());
                     let q = format!("QVm {} {} [{}]", if surf == "builtin" { "SBuiltin" } else { "SOpcode" }, max_heap, o.iter().map(|x| coq_op(x, true)).collect::<Vec<_>>().join("; ")); (o, b, f, q) }
